@@ -1,5 +1,5 @@
 """property id -> rules, explanation of what is / is not decided"""
-from rules import r_coord, r_keyid, r_opcode, r_doaction, r_cancel
+from rules import r_coord, r_keyid, r_opcode, r_doaction, r_cancel, r_idle, r_loop
 
 PROPS = {
     "C01": {
@@ -37,6 +37,17 @@ PROPS = {
         "not_decided": "name->code table vs the documentation; Windows/macOS tables (targets not installable offline); "
                        "that mapped_keys equals defsrc+deflayermap inputs (a run-time set computation); zippychord's configured "
                        "output characters are trusted to the parser's character table",
+    },
+    "C07": {
+        "rules": [r_idle.run, r_loop.run],
+        "explanation": "Decides: (R-IDLE) every (type, field) of kanata's run-time state that has a self-dependent scalar update "
+                       "(counter/timer) or loses elements in a function reachable from Kanata::tick_ms is read as a whole by "
+                       "is_idle / can_block_update_idle_waiting (transitively), is covered by a container those read, or is listed "
+                       "in the reviewed exemption table with its reason; (R-LOOP) the blocking recv() is reachable only on the true "
+                       "edge of can_block, and on wake-up last_tick is overwritten with a value derived from Instant::now() alone "
+                       "before handle_time_ticks, after handle_input_event.",
+        "not_decided": "full two-run equivalence for all continuations; wall-clock to tick conversion arithmetic; the exemption "
+                       "table's semantic reasons are reviewed, not machine-checked",
     },
     "C10": {
         "rules": [r_opcode.run_all],
